@@ -329,7 +329,11 @@ def result_fate(prog, fn, local, _seen=None):
                     else:
                         fates |= result_fate(prog, fn, s["lhs"]["l"], seen)
                 elif rv["rv"] == "ref" and not proj:
-                    fates |= result_fate(prog, fn, s["lhs"]["l"], seen)
+                    sub = result_fate(prog, fn, s["lhs"]["l"], seen)
+                    if sub == {"dropped"} and not _local_used(fn, s["lhs"]["l"]):
+                        pass        # a borrow nobody reads (the fake borrow of a guarded `match`): says nothing about the Result
+                    else:
+                        fates |= sub
                 elif proj and any(p == "dc:Err" for p in proj):
                     if rv["rv"] == "agg" and rv.get("adt") == "core::result::Result" and rv.get("variant") == "Err" and not s["lhs"]["p"]:
                         # re-wrapped at once: `Err(e) => Err(e)` (what `map` / `and_then` stand for): the new Result's fate counts
@@ -373,6 +377,25 @@ def result_fate(prog, fn, local, _seen=None):
     if not fates:
         fates.add("dropped")
     return fates
+
+
+def _local_used(fn, l):
+    for blk in fn.blocks:
+        if blk["cleanup"]:
+            continue
+        for st in blk["stmts"]:
+            if st["s"] == "assign":
+                for op in _rv_operands(st["rhs"]):
+                    if _uses_local(op, l):
+                        return True
+                if st["lhs"]["l"] == l and st["lhs"]["p"]:
+                    return True
+        t = blk["term"]
+        if t and t["t"] == "call" and any(_uses_local(a, l) for a in t["args"]):
+            return True
+        if t and t["t"] == "switch" and _uses_local(t["discr"], l):
+            return True
+    return False
 
 
 def _killed_before_return(fn, local, def_block):
@@ -755,17 +778,20 @@ def full_range_index(prog, fn, op, at):
     from . import k7
     cn = k7.Canon(prog, fn)
     leaves = leaf_origins(prog, fn, op, at=at, terminal_only=True)
-    # (a) for idx in lo..hi
+    # (a) for idx in lo..hi   /   (lo..hi).try_fold(..) etc. after desugaring
     if leaves and all(o.kind == "call" and (o.data.get("callee") or "").endswith("Iterator::next") for o in leaves):
-        for blk_i, blk in enumerate(fn.blocks):
-            for st in blk["stmts"]:
-                if st["s"] == "assign" and st["rhs"]["rv"] == "agg" and (st["rhs"].get("adt") or "").endswith("ops::range::Range") and len(st["rhs"]["ops"]) == 2:
-                    # the range must be what the iterator was made from
-                    nb = leaves[0].block
-                    it = leaf_origins(prog, fn, leaves[0].data["args"][0], at=nb, terminal_only=True)
-                    if any(x.kind == "agg" and x.block == blk_i for x in it) or any(x.kind == "call" and "into_iter" in (x.data.get("callee") or "") for x in it):
-                        return cn.op(st["rhs"]["ops"][0], blk_i), cn.op(st["rhs"]["ops"][1], blk_i)
-        return None
+        def range_of(op_, at_, depth=0):
+            if depth > 6:
+                return None
+            for x in origins(prog, fn, op_, at=at_):
+                if x.kind == "agg" and (x.data.get("adt") or "").endswith("ops::range::Range") and len(x.data.get("ops", [])) == 2 and not x.proj:
+                    return cn.op(x.data["ops"][0], x.block), cn.op(x.data["ops"][1], x.block)
+                if x.kind == "call" and x.data.get("args") and (x.data.get("callee") or "").rsplit("::", 1)[-1] in ("into_iter", "by_ref", "deref_mut", "deref", "borrow_mut"):
+                    r = range_of(x.data["args"][0], x.block, depth + 1)
+                    if r:
+                        return r
+            return None
+        return range_of(leaves[0].data["args"][0], leaves[0].block)
     # (b) let mut v = lo; while v < hi { .. v += 1 }
     c = cn.op(op, at)
     if c[0] != "var" or c[2]:
